@@ -488,11 +488,18 @@ def normalise(run):
                 t = threads[tid_owner[tid]]
                 if pid_ in (10, 11, 13, 14, 15, 16, 20, 21, 23, 24, 25):
                     t.arr_t.append((str(pid_), e["seq"]))
-                if pid_ in T_TOUCH:
+                if pid_ in T_TOUCH and e["arg"] == t.addr.get("tsm", e["arg"]):
+                    # (identity, not only the task: the point names the join block it is about)
                     emit(t, {"e": "touch", "by": "T", "what": T_TOUCH[pid_], "word": 0}, e)
                 else:
                     t.raw.append(e)
+                if pid_ in (16, 25):
+                    # the thread is about to leave: this task number says nothing about it any more
+                    # (it may be reused, e.g. by a thread that a closure spawns and that reports no `run`)
+                    del tid_owner[tid]
             if pid_ == 9:
+                # a new thread starts on this task number: whose it is only its `run` event says
+                tid_owner.pop(tid, None)
                 pending9[tid] = e["seq"]
         elif ev == "run":
             t = threads.get(e["k"])
